@@ -15,6 +15,7 @@
 """Utilities for serializing and deserializing state objects to and from JSON."""
 import functools
 import json
+import re
 from collections import deque
 from dataclasses import is_dataclass
 from datetime import datetime
@@ -114,6 +115,8 @@ def encode_to_dict(obj: Any, refs: Dict[int, Any]):
             value = {"__type": "tuple", "value": [encode_to_dict(v, refs) for v in obj]}
         elif isinstance(obj, set):
             value = {"__type": "set", "value": [encode_to_dict(v, refs) for v in obj]}
+        elif isinstance(obj, re.Pattern):
+            value = {"__type": "regex", "value": obj.pattern, "flags": obj.flags}
         else:
             raise Exception(f"Unhandled type in encode_to_dict: {type(obj)}")
 
@@ -185,6 +188,9 @@ def decode_from_dict(d: Any, refs: Dict[int, Any]):
 
             elif d_type == "set":
                 value = set(decode_from_dict(d["value"], refs))
+
+            elif d_type == "regex":
+                value = re.compile(d["value"], d["flags"])
 
             else:
                 raise Exception(f"Unknown d_type: {d_type}")
